@@ -1,0 +1,17 @@
+//go:build verif
+
+package server
+
+import "github.com/gopcua/opcua/uasc"
+
+// VerifChannels returns the secure channels currently registered with the
+// server. Verification builds only.
+func (s *Server) VerifChannels() []*uasc.SecureChannel {
+	s.cb.mu.RLock()
+	defer s.cb.mu.RUnlock()
+	var out []*uasc.SecureChannel
+	for _, sc := range s.cb.s {
+		out = append(out, sc)
+	}
+	return out
+}
